@@ -529,6 +529,69 @@ func init() {
 				}
 			},
 			Bound: "every ordered pair of 8 richer connected graphs (K2,2, K4, bipartite cycle, long edges, cycles, self-loops) in 2 interleavings (sequential, alternating) x greedy x {ns,lp} x 9 positioners x {fixed, per-name} sizes"})
+		// size thresholds: a component that is LARGE in some measure (nodes, nodes + edges, parallel edges: 16, 32, 64 and
+		// their neighbours) next to each richer component, both orders — a decision taken for a big component (a fallback,
+		// a different strategy, a grown buffer) must not stick to the components processed after it
+		chain := func(n int) Input {
+			var e []int
+			for i := 0; i+1 < n; i++ {
+				e = append(e, i, i+1)
+			}
+			return Input{E: e}
+		}
+		multi := func(k int) Input {
+			var e []int
+			for i := 0; i < k; i++ {
+				e = append(e, 0, 1)
+			}
+			return Input{E: e}
+		}
+		kab := func(a, b int) Input {
+			var e []int
+			for i := 0; i < a; i++ {
+				for j := 0; j < b; j++ {
+					e = append(e, i, a+j)
+				}
+			}
+			return Input{E: e}
+		}
+		var bigs, bigsSmall []Input
+		for _, n := range []int{15, 16, 17, 31, 32, 33, 34, 63, 64, 65} {
+			bigs = append(bigs, chain(n), multi(n))
+		}
+		bigs = append(bigs, kab(3, 5), kab(4, 4), kab(5, 5), kab(6, 6), kab(8, 8))
+		for _, b := range bigs {
+			if b.N() <= 40 && b.M() <= 64 {
+				bigsSmall = append(bigsSmall, b)
+			}
+		}
+		smalls := append(append([]Input(nil), rich...), relabel([]int{1, 0, 1, 2, 2, 3, 4, 2}), relabel([]int{2, 1, 0, 1, 0, 1}))
+		bigSpace := func(bs []Input) func(emit func(Input)) {
+			return func(emit func(Input)) {
+				for _, b := range bs {
+					for _, r := range smalls {
+						var bf, rf []int
+						for i := 0; i < b.M(); i++ {
+							bf = append(bf, b.E[2*i], b.E[2*i+1])
+						}
+						for i := 0; i < r.M(); i++ {
+							bf = append(bf, 1000+r.E[2*i], 1000+r.E[2*i+1])
+							rf = append(rf, r.E[2*i], r.E[2*i+1])
+						}
+						for i := 0; i < b.M(); i++ {
+							rf = append(rf, 1000+b.E[2*i], 1000+b.E[2*i+1])
+						}
+						emit(namedUnion(bf))
+						emit(namedUnion(rf))
+					}
+				}
+			}
+		}
+		ps = append(ps,
+			&Pass{Name: "big-next-to-rich", Space: bigSpace(bigs), Eval: evalC09(gridSpec{P1: []int{0}, P2: allP2, P4: []int{0, 1, 2, 4, 6}, P5: []int{2}, SZ: []int{1, 7}}.list()),
+				Bound: fmt.Sprintf("%d large components (chains and bundles of parallel edges of 15..65, K(a,b) up to 8x8: sizes around 16, 32, 64 in nodes, nodes+edges and edges) x %d richer components, both orders x greedy x {ns,lp} x {sink,valign,packright,bk,bk1} x {fixed, per-name} sizes", len(bigs), len(smalls))},
+			&Pass{Name: "big-next-to-rich-nsp", Space: bigSpace(bigsSmall), Eval: evalC09(gridSpec{P1: []int{0}, P2: allP2, P4: []int{3}, P5: []int{2}, SZ: []int{1, 7}}.list()),
+				Bound: fmt.Sprintf("the %d large components with <=40 nodes and <=64 edges x %d richer components, both orders x greedy x {ns,lp} x NetworkSimplex positioner (documented as time-intensive beyond a few dozen nodes)", len(bigsSmall), len(smalls))})
 		// iteration budgets that depend on the size of the graph: at thoroughness 1 (2) the layerer's pivot budget is
 		// 1 (2) x isqrt(nodes of the component). Every component is padded with a second component that lifts the node count
 		// of the union over the next square, so a budget taken from the union instead of the component shows as soon as the
